@@ -572,7 +572,7 @@ REOPEN_INV = [
     NO_TRUNC, NEW_EMPTY, "handles_kept(self)",
     "implies(existed(self.path), content(self, self.path) == oldcontent(self, self.path))",
     "implies(not existed(self.path) and fexists(self.path), vis(self.path) == '')",
-    "implies(existed(self.path), not self.first)", FIRST_NEW.replace("self.first", "self.first == old(self.first)"),
+    "implies(existed(self.path), not self.first)",       # (`first` is not written by the loop: no further clause)
     "implies(old(self.path) != '', self.path == old(self.path))",
 ]
 contract(FL, "Log.reopen", "C23", params=dict(self=Ref("C23Log"), prefix=STR, keep=INT), setup=fs_setup,
@@ -586,8 +586,7 @@ contract(FL, "Log.reopen", "C23", params=dict(self=Ref("C23Log"), prefix=STR, ke
 contract(FL, "Log.reopen", "C23", params=dict(self=Ref("C23Log"), prefix=STR, keep=INT), setup=fs_setup,
          requires=[INV], externals={"literal.format": _fmt_rotname}, frame=False,
          modifies=FS_MOD + FILE_MOD + ["self.file", "self.first", "self.path", "self.paths"],
-         loops={0: dict(inv=["implies(existed(self.path), not self.first)",
-                             "implies(not existed(self.path), self.first == old(self.first))"])},
+         loops={0: dict(inv=["implies(existed(self.path), not self.first)"])},   # the loop does not write `first`
          returns=BOOL, ensures=["implies(existed(self.path), not self.first)", FIRST_NEW],
          findings={"stale-first": "not self.first"})
 
@@ -947,7 +946,14 @@ def _n_check_reopen(env, nr, outcome, result, exc):
     for q, text in A.items():
         if q not in B and text != "":
             msgs.append("new file %s is not empty" % q)
-    if result and (log.file is None or log.file.closed or log.file.name != log.path):
+    def _same_file(f, path):
+        # a file created by ocfn comes from os.fdopen: its .name is the descriptor number, so compare inodes
+        try:
+            a_, b_ = _os.fstat(f.fileno()), _os.stat(path)
+            return (a_.st_dev, a_.st_ino) == (b_.st_dev, b_.st_ino)
+        except OSError:
+            return False
+    if result and (log.file is None or log.file.closed or not _same_file(log.file, log.path)):
         msgs.append("result True but no open handle on path")
     if B.get(log.path) is not None and log.first:
         msgs.append("first stays True for a file that existed (second header)")
